@@ -18,6 +18,7 @@ var fixedDocs = []string{
 	`{"a":1,"b":{"c":[1,2,3],"d":null},"e":"s"}`,
 	`[1,[2,3],{"a":null},null,"x"]`,
 	`{"a/b":{"m~n":1},"0":[],"":7}`,
+	`{"~1":{"/":1,"~":2,"~0":3},"/":[4],"~01":5,"~10":{"~1":6}}`,
 	`{}`,
 	`[]`,
 	`[[[]]]`,
@@ -105,6 +106,9 @@ func judgeApply(c *core.Ctx, sc *SeqCase, o V5Opts, res ApplyResult, want ref.Re
 		}
 		if res.Events != nil {
 			d["ops_executed"] = len(res.Events.Done)
+			if res.Events.Ended && res.Events.Inv.Shared > 0 {
+				d["h4_nodes_shared_between_locations"] = res.Events.Inv.Shared
+			}
 		}
 		for k, v := range extra {
 			d[k] = v
@@ -117,6 +121,10 @@ func judgeApply(c *core.Ctx, sc *SeqCase, o V5Opts, res ApplyResult, want ref.Re
 		return false
 	}
 	c.Count("in_domain")
+	if res.Events != nil && res.Events.Ended {
+		c.Count("h4.walks")
+		c.CountN("h4.nodes_shared_between_locations", int64(res.Events.Inv.Shared))
+	}
 	if res.Panic != nil {
 		c.Violation(res.Panic.Sig(), detail(panicDetail(res.Panic)), panicFindings(res.Panic)...)
 		return true
@@ -220,6 +228,19 @@ func init() {
 					cfg.MaxOps = 40
 				}
 				c01Run(c, GenSeq(c.R, &cfg, o.Ref()), o)
+			}},
+			{Name: "relocation-chains", Count: func(t core.Tier) int {
+				if t == core.Thorough {
+					return 400000
+				}
+				return 16000
+			}, Run: func(c *core.Ctx, idx int) {
+				// copied / moved / added values are copied and moved again, into and out of each other
+				o := V5Opts{NegIdx: true, EscapeHTML: c.R.Intn(2) == 0}
+				prof := seqCfg.Prof.With(func(p *gen.Profile) { p.ScalarBias = 25 })
+				sc := GenMotionSeq(c.R, prof, o.Ref(), 10, true)
+				c.CountN("relocation-chains:ops", int64(len(sc.Ops)))
+				c01Run(c, sc, o)
 			}},
 			{Name: "copy-isolation", Count: func(t core.Tier) int {
 				if t == core.Thorough {
@@ -374,7 +395,7 @@ func init() {
 
 // Keys for C01/C05/C08/C13: the empty name is drawn rarely because an empty
 // reference token puts the case outside the comparing domain.
-var c01Keys = []string{"a", "b", "c", "d", "a/b", "m~n", "~", "0", "1", "-1", "01", "x<y", "k&v", " ", "é", "😀", `q"r`, `b\s`, "\n", "-", "e", "f"}
+var c01Keys = []string{"a", "b", "c", "d", "a/b", "m~n", "~", "~1", "/", "~0", "0", "1", "-1", "01", "x<y", "k&v", " ", "é", "😀", `q"r`, `b\s`, "\n", "-", "e", "f"}
 
 func text2patch(op string) string { return "[" + op + "]" }
 
